@@ -17,7 +17,7 @@ CHECKS = {
          "Memory of key vectors / upvalue vectors is taken from the global allocator and is outside 'accounted'; programs bind fresh objects to a global before using them as operands of allocating cards (C02's open findings).", "DESIGN.md §4 C05"),
  "C11": ("bounded-exhaustive round trips: module families x {json,yaml}, compiled programs and containers with every entry count 0..64 (thorough 400) x {json,cbor,bincode}, owned values",
          "Source modules read back compile to byte-identical program images; compiled programs read back are field-wise equal and run identically (incl. error traces); HandleTable / CaoHashMap with every count survive each format and remain usable under every follow-up history of depth 2; 165 owned values survive OwnedValue + 3 formats + a second VM with order preserved.",
-         "Non-finite reals excluded for JSON/YAML sources.", "DESIGN.md §4 C11"),
+         "NaN literals excluded for source round trips, infinities for JSON only (YAML must carry them).", "DESIGN.md §4 C11"),
  "C18": ("finite product of typed host functions x supplied value kinds x call paths x call depths on the real Vm + bounded-exhaustive re-entry family against the reference interpreter with host-side stack-height checks",
          "4179 typed-parameter cases (8 rotations of 8 parameter types over arities 0..4, 6 supplied kinds, CallNative / native value / host run_function, depth 0..2) against the conversion table; reserved names; 972 re-entry programs (5 callee kinds x 6 callee bodies x argument counts x call sites x result uses) with value-stack height and call depth compared inside the host function around every successful run_function.",
          "Coercing conversions may yield the coercion or a rejection.", "DESIGN.md §4 C18"),
